@@ -233,7 +233,18 @@ class Flow:
     def _find_acc(func) -> set:
         acc = set()
 
-        def visit(node, in_loop):
+        def fresh(st):
+            """the name a statement binds to a new empty / literal list, else None"""
+            if isinstance(st, ast.Assign) and len(st.targets) == 1 and isinstance(st.targets[0], ast.Name) and (
+                    isinstance(st.value, ast.List) or (isinstance(st.value, ast.Call) and isinstance(st.value.func, ast.Name) and st.value.func.id == "list"
+                                                       and not st.value.args and not st.value.keywords)):
+                return st.targets[0].id
+            return None
+
+        def visit(node, in_loop, local=frozenset()):
+            # local: the lists the innermost enclosing loop body has created afresh, at its own level, before this statement -- a list
+            # born in the iteration that appends to it (`for r in rs: parts = []; if c: parts.append(x); out.append(sep.join(parts))`)
+            # accumulates nothing across iterations: its value is tracked like that of any local (("appended", L, x) under phi)
             for ch in ast.iter_child_nodes(node):
                 if isinstance(ch, (ast.FunctionDef, ast.AsyncFunctionDef, ast.ClassDef, ast.Lambda)):
                     continue
@@ -244,9 +255,22 @@ class Flow:
                             acc.add(t.value.id)
                 if in_loop and isinstance(ch, ast.Expr) and isinstance(ch.value, ast.Call) \
                         and isinstance(ch.value.func, ast.Attribute) and isinstance(ch.value.func.value, ast.Name) \
-                        and ch.value.func.attr in ("append", "extend", "add", "update", "insert", "pop"):
+                        and ch.value.func.attr in ("append", "extend", "add", "update", "insert", "pop") \
+                        and not (ch.value.func.attr == "append" and ch.value.func.value.id in local):
                     acc.add(ch.value.func.value.id)
-                visit(ch, in_loop or isinstance(ch, (ast.For, ast.While)))
+                if isinstance(ch, (ast.For, ast.While)):
+                    born = set()
+                    for st in ch.body:
+                        visit(ast.Module(body=[st], type_ignores=[]), True, frozenset(born))
+                        if fresh(st):
+                            born.add(fresh(st))
+                        else:
+                            born -= {n.id for n in ast.walk(st) if isinstance(n, ast.Name) and isinstance(n.ctx, (ast.Store, ast.Del))}
+                    for part in (ch.orelse, [ch.iter] if isinstance(ch, ast.For) else [ch.test]):
+                        for st in part:
+                            visit(ast.Module(body=[st], type_ignores=[]) if isinstance(st, ast.stmt) else st, in_loop, local)
+                else:
+                    visit(ch, in_loop, local)
 
         visit(func, False)
         return acc
